@@ -369,6 +369,11 @@ CORPUS = [
     dict(rc=[1.0, 0.06, 0.0], zs=[0.0, 0.05, 0.0], rs=[0.0, 0.004, 0.006], zc=[0.0, 0.003, 0.008], nfp=2, etabar=0.9, order='r2', B2c=0.1, I2=0.2, B0=1.2, nphi=31),
     # nearly axisymmetric axis (constant-data shortcuts must not fire)
     dict(rc=[1.0, 4.0e-6], zs=[0.0, 4.0e-6], nfp=3, etabar=1.1, order='r1', nphi=31),
+    # order r3, non-symmetric (sigma0, rs, zc, B2s all non-zero): calculate_shear() takes its quadrature branch
+    dict(rc=[1.0, 0.08], zs=[0.0, 0.07], rs=[0.0, 0.006], zc=[0.0, 0.009], nfp=2, etabar=0.9, sigma0=0.15, order='r3', B2c=0.2, B2s=-0.15, B0=1.2, I2=0.3, p2=-40000.0,
+         sG=1, spsi=1, nphi=31),
+    # an axis with a curvature dip: the normal turns by more than one quadrant between two grid points
+    dict(rc=[1.0, 0.2123], zs=[0.0, 0.1556], rs=[0.0, 0.027], zc=[0.0, 0.0354], nfp=2, etabar=0.9, order='r1', nphi=61),
     # weakly shaped axis at second order: B20 is nearly uniform (one-pass variance formulas cancel catastrophically)
     dict(rc=[1.0, 2.0e-5], zs=[0.0, 2.0e-5], nfp=2, etabar=0.9, order='r2', B2c=0.3, p2=-1.0e5, I2=0.7, nphi=21),
 ]
@@ -386,6 +391,11 @@ def corpus_objects(orders=None, histories=True):
         except Exception:
             continue
         if admissible(q, msgs) or (not msgs and np.all(np.isfinite(q.sigma)) and np.isfinite(q.iota)):
+            if cfg.get('order') == 'r3':
+                try:
+                    q.calculate_shear()          # a read-only diagnostic (C17): nothing the oracles look at may change
+                except Exception:
+                    pass
             out.append((dict(cfg), q))
     if histories:
         hr = np.random.default_rng(12345)
@@ -400,3 +410,12 @@ def corpus_objects(orders=None, histories=True):
             # unconverged or non-finite is exactly what the predictions should see)
             out.append((dict(cfg), q))
     return out
+
+
+def normal_resolved(q):
+    """True when the grid resolves the rotation of the axis normal in the (R, Z) plane: consecutive grid points (cyclically) lie in the same or in
+    adjacent quadrants (the hypothesis of theories/Winding.v under which the quadrant counter IS the winding number)"""
+    nR, nZ = q.normal_cylindrical[:, 0], q.normal_cylindrical[:, 2]
+    quad = np.where(nR >= 0, np.where(nZ >= 0, 1, 4), np.where(nZ >= 0, 2, 3))
+    d = (np.roll(quad, -1) - quad) % 4
+    return bool(np.all(d != 2))
